@@ -28,14 +28,15 @@ for prop, spec_ in sorted(table.items()):
         if key in seen:
             continue
         seen.add(key)
-        if c["world"] not in bins:
-            bins[c["world"]], _ = m.build(work, "/repo", c["world"], ov)
+        bk = (c["world"], bool(c.get("yield")))
+        if bk not in bins:
+            bins[bk], _ = m.build(work, "/repo", c["world"], ov, yld=bool(c.get("yield")))
         checks = min(CHECKS, c["quick"])
         for i in range(N):
             ws = m.worker_seed(12345, prop, c["test"], i)
             for rep, gmp in enumerate((1, 4, 16)):
                 jobs.append({"prop": prop, "tier": "quick", "world": c["world"], "test": c["test"], "repo": "/repo",
-                             "bin": bins[c["world"]], "dir": os.path.join(work, f"{prop}-{c['test']}-{i}-{rep}"),
+                             "bin": bins[bk], "dir": os.path.join(work, f"{prop}-{c['test']}-{i}-{rep}"),
                              "seed": ws, "checks": checks, "verif_seed": 12345, "gomaxprocs": gmp, "key": key + (i,)})
 random.Random(1).shuffle(jobs)
 t0 = time.time()
